@@ -209,7 +209,7 @@ def run_batch(check, tier, seed, workers=None, budget_s=None, n_cases=None, verb
     if n_cases:
         cases = cases[:n_cases]
     per_run_wall = getattr(check, "per_run_wall_s", 120)
-    chunk = max(1, min(8, len(cases) // (workers * 4) or 1))
+    chunk = getattr(check, "chunk", None) or max(1, min(8, len(cases) // (workers * 4) or 1))
     chunks = [cases[i:i + chunk] for i in range(0, len(cases), chunk)]
     results = []
     harness_errors = []
